@@ -163,7 +163,10 @@ def check(run, prog, tier):
     run.ob("C20-b", "creators", set(geo_callers) <= {"load_object", "clone_object"} and bool(geo_callers),
            "get_empty_object called from %s" % geo_callers, None, None, None,
            what="object allocation outside load_object/clone_object: %s" % geo_callers)
-    for fname, targets in (("load_object", ("get_empty_object", "compile_file", "load_binary")), ("clone_object", ("get_empty_object",))):
+    # creation targets: allocation, compilation, and the virtual-object path (the master's compile_object
+    # creates an object on behalf of the caller, which load_object then adopts)
+    for fname, targets in (("load_object", ("get_empty_object", "compile_file", "load_binary", "load_virtual_object")),
+                           ("clone_object", ("get_empty_object", "load_virtual_object"))):
         f = byname[fname][0]
         run.saw(f)
         # gate edges
@@ -195,7 +198,8 @@ def check(run, prog, tier):
         pe = {(b, s) for b, s, _ in pass_edges if s is not None}
         for tname in targets:
             calls = list(f.calls(tname))
-            run.need(calls, "%s call in %s" % (tname, fname))
+            if tname != "load_virtual_object" or fname == "load_object":
+                run.need(calls, "%s call in %s" % (tname, fname))
             for j, (b, i, n) in enumerate(calls):
                 p = f.reach_avoiding([f.entry], lambda blk, bb=b.id: blk.id == bb, avoid_edges=pe)
                 ok = gate_found and p is None
